@@ -505,6 +505,8 @@ def _decision(run: Run, ctx, fi: FuncInfo, roles, domain, ops, spec, rule: str) 
         return None
 
     _RESOLVE[0] = resolve
+    _MODULE[0] = fi.module
+    _MODEL[0] = m
     for l, r, op in itertools.product(domain, domain, ops):
         env = {}
         for var, role in role_of.items():
@@ -521,7 +523,12 @@ def _decision(run: Run, ctx, fi: FuncInfo, roles, domain, ops, spec, rule: str) 
     run.check(not bad, rule, fi, fi.node, f"{fi.name[6:]} type rule agrees with the specification on all {n_points} abstract points", f"{fi.name}: on {len(bad)} of {n_points} abstract points the recorded type differs from the specification, e.g. (left={bad[0][0]}, right={bad[0][1]}, op={bad[0][2]}) -> {bad[0][3]} instead of {bad[0][4]}" if bad else "")
 
 
+_OP = ("<the operator>",)
+
+
 def _const_type(e: ast.AST, env):
+    if isinstance(e, ast.Attribute) and e.attr == "op":
+        return _OP  # node.op handed to a helper: tested there with isinstance(op, ast.Div)
     if isinstance(e, ast.Name):
         if e.id in env:
             return env[e.id]
@@ -540,8 +547,11 @@ def _test(e: ast.AST, env, op) -> bool:
         return not _test(e.operand, env, op)
     if isinstance(e, ast.Compare) and len(e.ops) == 1:
         o = e.ops[0]
-        if isinstance(o, (ast.In, ast.NotIn)) and isinstance(e.comparators[0], (ast.List, ast.Tuple, ast.Set)):
-            r = _const_type(e.left, env) in [_const_type(x, env) for x in e.comparators[0].elts]
+        comp0 = e.comparators[0]
+        if isinstance(o, (ast.In, ast.NotIn)) and isinstance(comp0, ast.Name) and comp0.id not in env and _MODULE[0] is not None and isinstance(_MODULE[0].assigns.get(comp0.id), (ast.List, ast.Tuple, ast.Set)):
+            comp0 = _MODULE[0].assigns[comp0.id]  # a module-level literal of types
+        if isinstance(o, (ast.In, ast.NotIn)) and isinstance(comp0, (ast.List, ast.Tuple, ast.Set)):
+            r = _const_type(e.left, env) in [_const_type(x, env) for x in comp0.elts]
             return r if isinstance(o, ast.In) else not r
         l, r = _const_type(e.left, env), _const_type(e.comparators[0], env)
         if isinstance(o, (ast.Eq, ast.Is)):
@@ -550,7 +560,7 @@ def _test(e: ast.AST, env, op) -> bool:
             return l != r
     if isinstance(e, ast.Call) and isinstance(e.func, ast.Name) and e.func.id == "isinstance" and len(e.args) == 2:
         subj = ast.unparse(e.args[0])
-        if subj.endswith(".op"):
+        if subj.endswith(".op") or (isinstance(e.args[0], ast.Name) and env.get(e.args[0].id) == _OP):
             cls = e.args[1]
             names = [ast.unparse(x).split(".")[-1] for x in (cls.elts if isinstance(cls, ast.Tuple) else [cls])]
             return op in names
@@ -558,6 +568,8 @@ def _test(e: ast.AST, env, op) -> bool:
 
 
 _RESOLVE = [None]
+_MODULE = [None]
+_MODEL = [None]
 
 
 def _eval_helper(g: FuncInfo, skip: int, vals, op):
@@ -587,7 +599,12 @@ def _eval_helper(g: FuncInfo, skip: int, vals, op):
             raise _Unsupported(ast.unparse(s)[:60])
         return None
 
-    r = go(g.node.body)
+    body_ = g.node.body
+    if _MODEL[0] is not None and any(isinstance(x_, ast.For) for x_ in body_):
+        from ..normalise import unrolled as _unrolled
+
+        body_ = _unrolled(_MODEL[0], g).node.body  # a first-match loop over a literal table of (type, result) pairs
+    r = go(body_)
     if r is None:
         raise _Unsupported(f"{g.name} may fall off its end")
     return r
